@@ -1098,6 +1098,9 @@ def small_rewrites(t):
             if n in ("builtins.min", "builtins.max") and len(t[2]) == 2 and not t[3]:
                 a, b = t[2]
                 return ("ite", ("cmp", "<=", a, b), a, b) if n.endswith("min") else ("ite", ("cmp", ">=", a, b), a, b)
+            if n in ("numpy.add", "numpy.subtract", "numpy.multiply") and len(t[2]) == 2 and all(k == "out" for k, _ in t[3]):
+                # np.add(a, b) / np.add(a, b, out=x) has the value a + b (where it is stored is the evaluator's business: it rebinds x)
+                return ("bin", {"numpy.add": "+", "numpy.subtract": "-", "numpy.multiply": "*"}[n], t[2][0], t[2][1])
             if n == "numpy.logical_not" and len(t[2]) == 1 and not t[3]:
                 return ("un", "~", t[2][0])
             if n == "numpy.dot" and len(t[2]) == 2 and not t[3]:
